@@ -469,18 +469,31 @@ func (c *Channel) ensureRegistered(ctx context.Context) error {
 	}()
 
 	// Register.
-	err := c.registerDispute(ctx)
-	if err != nil {
+	regErr := c.registerDispute(ctx)
+	if regErr != nil {
 		// Only log because channel may already be registered.
-		c.Log().Warnf("registering: %v", err)
+		c.Log().Warnf("registering: %v", regErr)
 	}
 
+	var err error
 	select {
 	case err = <-registered:
 	case <-ctx.Done():
 		err = ctx.Err()
 	}
-	return err
+	if err != nil || regErr == nil {
+		return err
+	}
+
+	// The failed registration attempt may have put the machines back into
+	// phase `Registering` after the event of the existing registration had
+	// been handled already.
+	l, err := c.tryLockRecursive(ctx)
+	defer l.Unlock()
+	if err != nil {
+		return errors.WithMessage(err, "locking recursive")
+	}
+	return errors.WithMessage(c.setRegisteredRecursive(ctx), "setting phase `Registered` recursive")
 }
 
 // awaitRegistered scans for an event indicating that the channel has been
